@@ -224,6 +224,12 @@ def jobs(tier):
     B(lambda: L.SpiSlaveInst(8))
     B(lambda: L.SpiSlaveInst(32))
     B(lambda: L.SpiSlaveInst(8, wellformed=False))
+    # every width from 1 up, frames followed by foreign traffic (clock/MOSI toggling while cs_n is high) and random pins:
+    # the monitor's exact received-word reference holds for any pad activity (spi_slave_word_stable_while_deselected)
+    for dw in (1, 2, 3, 4, 6, 7):
+        B(lambda dw=dw: L.SpiSlaveInst(dw), cycles=2500 if quick else 30000)
+    for dw in (1, 2, 3, 16):
+        B(lambda dw=dw: L.SpiSlaveInst(dw, wellformed=False), cycles=2500 if quick else 30000)
     B(lambda: L.I2cInst(20, 3))
     B(lambda: L.I2cInst(20, 0))
     B(lambda: L.I2cInst(8, 11))
